@@ -10,6 +10,7 @@
   (`wf_fromEdges`), so every graph the Python API can build satisfies it.
 -/
 import Y0.Lemmas.Closure
+import Y0.Lemmas.Moral
 
 namespace Y0.MG
 variable {α : Type} [DecidableEq α]
@@ -533,6 +534,40 @@ theorem equiv_congr_districts (G H : MG α) (hG : G.WF) (hH : H.WF) (h : G.equiv
   have : G.BiEdge = H.BiEdge := by funext a b; exact propext (h.2.2 a b)
   simp [SameDistrict, this]
 
+/-! ## 12. moralize: same nodes and directed edges; nodes with a common child are married -/
+
+theorem mem_nodes_moralize (G : MG α) (hG : G.WF) (v : α) : v ∈ G.moralize.nodes ↔ v ∈ G.nodes := by
+  unfold moralize
+  rw [mem_nodes_foldl_addBi]
+  constructor
+  · rintro (h | ⟨e, he, h⟩)
+    · exact h
+    · rcases e with ⟨x, y⟩
+      obtain ⟨n, _, hx, hy⟩ := mem_moralLinks G x y he
+      rcases h with rfl | rfl
+      · exact (hG.di_mem _ hx).1
+      · exact (hG.di_mem _ hy).1
+  · exact Or.inl
+
+theorem diEdge_moralize (G : MG α) (u v : α) : G.moralize.DiEdge u v ↔ G.DiEdge u v := by
+  unfold moralize DiEdge; rw [di_foldl_addBi]
+
+/-- the undirected part of the moralised graph: the old bidirected edges plus one edge between every
+two distinct nodes that have a common child (and no self-loop is added: see `pairs`). -/
+theorem biEdge_moralize (G : MG α) (hG : G.WF) (u v : α) (huv : u ≠ v) :
+    G.moralize.BiEdge u v ↔ G.BiEdge u v ∨ ∃ c, G.DiEdge u c ∧ G.DiEdge v c := by
+  unfold moralize
+  rw [biEdge_foldl_addBi]
+  constructor
+  · rintro (h | h | h)
+    · exact Or.inl h
+    · obtain ⟨n, _, hx, hy⟩ := mem_moralLinks G u v h; exact Or.inr ⟨n, hx, hy⟩
+    · obtain ⟨n, _, hx, hy⟩ := mem_moralLinks G v u h; exact Or.inr ⟨n, hy, hx⟩
+  · rintro (h | ⟨c, hu, hv⟩)
+    · exact Or.inl h
+    · exact Or.inr (moralLinks_complete G u v c (hG.di_mem _ hu).2 hu hv huv)
+
+
 /-! ## non-vacuity: a 5-node graph with an isolated node (4) and a node touched only by a
 bidirected edge (3) satisfies `WF`, and the operations return what the theorems say -/
 
@@ -544,5 +579,6 @@ example : (exampleGraph.removeInEdges [2]).di = [(0, 1)] ∧ (exampleGraph.remov
 example : exampleGraph.ancestorsInclusive [2] = .ok [2, 1, 0] := by decide
 example : exampleGraph.districts = [[4], [0, 2, 3], [1]] := by decide
 example : exampleGraph.markovBlanket [1] = .ok [0, 2] := by decide
+example : (fromEdges ([] : List Nat) [(0, 2), (1, 2)] []).moralize.bi = [(0, 1)] := by decide
 
 end Y0.MG
